@@ -17,15 +17,43 @@ open RqModel.Routing
 
 /-! ### the query endpoint -/
 
-/-- No query-endpoint request, at any consistency level, changes the database: whatever the
-texts contain (several statements in one text, writes anywhere in them). -/
-theorem query_endpoint_never_modifies (lv : Level) (db : Db) (texts : List Text) :
-    (storeQuery lv db texts).db = db := rfl
+/-- `QueryContext` on a read-only-pool connection leaves the database as it is: by the two laws of
+`SqliteConn`, whatever the statement that gets stepped. -/
+theorem queryCtx_ro_keeps {σ : Type} (C : SqliteConn σ) (db : σ) (t : Text) :
+    (queryCtx C true db t).1 = db := by
+  unfold queryCtx
+  cases lastStmt t with
+  | none => rfl
+  | some s =>
+    cases h : stmtReadOnly s
+    · simp [C.queryOnly_refuses db s h]
+    · simp [C.readOnly_keeps true db s h]
 
-/-- … and a text whose executed statement is a write is answered with an error -/
+/-- … and so does `db.Query` for any list of texts: induction over the texts, for EVERY connection
+semantics satisfying the laws. -/
+theorem dbQueryG_keeps {σ : Type} (C : SqliteConn σ) (db : σ) (texts : List Text) :
+    (dbQueryG C db texts).1 = db := by
+  induction texts generalizing db with
+  | nil => rfl
+  | cons t rest ih =>
+    unfold dbQueryG
+    by_cases ht : t = []
+    · simp [ht, ih]
+    · simp only [ht, if_false]
+      rw [ih, queryCtx_ro_keeps]
+
+/-- No query-endpoint request, at any consistency level, changes the database - whatever the
+texts contain (several statements in one text, writes anywhere in them). Derived from the assumed
+laws of a query_only / mode=ro connection, not from the shape of the model. -/
+theorem query_endpoint_never_modifies (lv : Level) (db : Db) (texts : List Text) :
+    (storeQuery lv db texts).db = db := by
+  simp only [storeQuery, dbQuery]
+  exact dbQueryG_keeps listConn db texts
+
+/-- … and a text whose executed statement is not read-only is answered with an error -/
 theorem query_endpoint_rejects_writes (lv : Level) (db : Db) (t : Text) (n : Nat)
     (h : lastStmt t = some (.w n)) (hne : t ≠ []) : (storeQuery lv db [t]).errs = [true] := by
-  simp [storeQuery, dbQuery, hne, runROq, h, stmtReadOnly]
+  simp [storeQuery, dbQuery, dbQueryG, hne, queryCtx, h, listConn]
 
 example : storeQuery .strong [7] [[.r, .w 1], [.w 2]] = ⟨[7], [true, true]⟩ := by decide
 
@@ -56,7 +84,7 @@ theorem runRWexec_eq (db : Db) (t : Text) : runRWexec db t = db ++ writesOf t :=
   induction t generalizing db with
   | nil => simp [runRWexec, writesOf]
   | cons s rest ih =>
-    cases s <;> simp [runRWexec, writesOf, ih, List.append_assoc]
+    cases s <;> simp [runRWexec, writesOf, ih, List.append_assoc, listConn]
 
 theorem requestText_eq (db : Db) (t : Text) (h : readOnlyHeadWritingTail t = false) :
     requestText db t = db ++ (if classify t = some false then writesOf t else []) := by
@@ -67,8 +95,10 @@ theorem requestText_eq (db : Db) (t : Text) (h : readOnlyHeadWritingTail t = fal
     cases b
     · simp [runRWexec_eq]
     · simp only [readOnlyHeadWritingTail, hc, beq_self_eq_true, Bool.true_and] at h
-      simp only [runRWq]
-      split <;> simp_all
+      simp only [runRWq, queryCtx]
+      cases hl : lastStmt t with
+      | none => simp
+      | some st => cases st <;> simp_all [listConn]
 
 theorem foldl_requestText (db : Db) (texts : List Text)
     (h : ∀ t ∈ texts, readOnlyHeadWritingTail t = false) :
@@ -101,7 +131,7 @@ theorem request_readonly_texts_change_nothing_partial (lv : Level) (db : Db) (te
   split
   · rename_i hl
     simp only [Bool.and_eq_true, beq_iff_eq] at hl
-    simp [dbQuery, rwWrites_of_nRW_zero texts hl.1]
+    simp [dbQuery, dbQueryG_keeps, rwWrites_of_nRW_zero texts hl.1]
   · simp [dbRequest, foldl_requestText db texts h]
 
 /-- When no text is read-write and the level is not strong, the request runs on the read-only
@@ -110,7 +140,7 @@ theorem ro_classified_runs_on_ro_capable_conn (lv : Level) (db : Db) (texts : Li
     (h0 : nRW texts = 0) (hl : lv ≠ .strong) :
     storeRequest lv db texts = dbQuery db texts ∧ (storeRequest lv db texts).db = db := by
   have : (nRW texts == 0 && lv != .strong) = true := by simp [h0, hl]
-  simp [storeRequest, this, dbQuery]
+  simp [storeRequest, this, dbQuery, dbQueryG_keeps]
 
 /-- witnesses: level strong, and alongside a write at level weak -/
 theorem request_strong_witness :
@@ -140,6 +170,8 @@ def allowedSites : List (String × String × String) :=
     ("state.go", "recoverNode", "replaying committed log entries into a fresh database during manual recovery"),
     ("store.go", "fsmRestore", "installing a snapshot"),
     ("store.go", "ReadFrom", "explicit boot"),
+    ("store.go", "Open", "opening (and, when configured, re-creating) the database file at start-up"),
+    ("store.go", "createDBOnDisk", "helper of Open: removes and opens the database file"),
     ("store.go", "Vacuum", "maintenance: VACUUM keeps the logical content"),
     ("store.go", "doAutoOptimize", "maintenance: PRAGMA optimize keeps the logical content") ]
 
@@ -151,21 +183,56 @@ theorem db_changes_only_via :
     storeSites.all (fun s => allowedSites.any fun a => a.1 == s.1 && a.2.1 == s.2.1) = true := by
   decide
 
-/-! #### the facts, tied to the model: every mutator call site IS one of the model's transitions -/
+/-! #### the facts, tied to the model: a labelled transition system of one node's database -/
 
-/-- how a node's database can move, in the routing model's terms -/
-inductive NodeStep : Db → Db → Prop where
-  | applyExecute (db : Db) (texts : List Text) : NodeStep db (dbExecute db texts).db   -- committed EXECUTE entry
-  | applyRequest (db : Db) (texts : List Text) : NodeStep db (dbRequest db texts).db   -- committed EXECUTE_QUERY entry
-  | applyQuery (db : Db) (texts : List Text) : NodeStep db (dbQuery db texts).db       -- committed QUERY entry (strong read)
-  | replace (db db' : Db) : NodeStep db db'      -- load entry / snapshot install / boot: the file is swapped
-  | maintenance (db : Db) : NodeStep db db       -- VACUUM / PRAGMA optimize: same logical content
+/-- what can happen to a node's database, with its payload -/
+inductive Label where
+  | applyExecute (texts : List Text)   -- a committed EXECUTE entry
+  | applyRequest (texts : List Text)   -- a committed EXECUTE_QUERY entry
+  | applyQuery (texts : List Text)     -- a committed QUERY entry (strong read), or a local read
+  | load (image : Db)                  -- a committed LOAD / LOAD_CHUNK entry: the file is swapped for `image`
+  | restore (image : Db)               -- snapshot install
+  | boot (image : Db)                  -- explicit boot (ReadFrom)
+  | open_ (image : Db)                 -- opening / re-creating the database file at start-up or recovery
+  | maintenance                        -- VACUUM / PRAGMA optimize / checkpoint: same logical content
+deriving Repr
+
+/-- the transition function -/
+def stepL : Label → Db → Db
+  | .applyExecute texts, db => (dbExecute db texts).db
+  | .applyRequest texts, db => (dbRequest db texts).db
+  | .applyQuery texts, db => (dbQuery db texts).db
+  | .load image, _ => image
+  | .restore image, _ => image
+  | .boot image, _ => image
+  | .open_ image, _ => image
+  | .maintenance, db => db
+
+/-- read-labelled and maintenance steps keep the database -/
+theorem read_labels_keep (db : Db) (texts : List Text) :
+    stepL (.applyQuery texts) db = db ∧ stepL .maintenance db = db :=
+  ⟨dbQueryG_keeps listConn db texts, rfl⟩
 
 inductive StepKind where
-  | applyExecute | applyRequest | applyLoad | applyEntry | restore | boot | maintenance
+  | applyExecute | applyRequest | applyLoad | applyEntry | restore | boot | open_ | maintenance
 deriving Repr, DecidableEq
 
-/-- which transition a call site of package store performs -/
+/-- the labels a call site of a given kind can perform -/
+def StepKind.labels : StepKind → Label → Bool
+  | .applyExecute, .applyExecute _ => true
+  | .applyRequest, .applyRequest _ => true
+  | .applyLoad, .load _ => true
+  | .applyEntry, .applyExecute _ => true     -- the command processor: whatever the entry holds
+  | .applyEntry, .applyRequest _ => true
+  | .applyEntry, .applyQuery _ => true
+  | .applyEntry, .load _ => true
+  | .restore, .restore _ => true
+  | .boot, .boot _ => true
+  | .open_, .open_ _ => true
+  | .maintenance, .maintenance => true
+  | _, _ => false
+
+/-- which kind a call site of package store is -/
 def siteKind : String × String × String → Option StepKind
   | ("command_processor.go", "Process", "db.Execute") => some .applyExecute
   | ("command_processor.go", "Process", "db.Request") => some .applyRequest
@@ -174,59 +241,43 @@ def siteKind : String × String × String → Option StepKind
   | ("state.go", "recoverNode", "cmdProc.Process") => some .applyEntry
   | ("store.go", "fsmRestore", "s.db.Swap") => some .restore
   | ("store.go", "ReadFrom", "s.db.Swap") => some .boot
+  | ("store.go", "Open", "createDBOnDisk") => some .open_
+  | ("store.go", "createDBOnDisk", "sql.RemoveFiles") => some .open_
+  | ("store.go", "createDBOnDisk", "sql.OpenSwappable") => some .open_
+  | ("state.go", "recoverNode", "sql.RemoveFiles") => some .open_
+  | ("state.go", "recoverNode", "sql.OpenSwappable") => some .open_
+  | ("state.go", "recoverNode", "db.Checkpoint") => some .maintenance
   | ("store.go", "Vacuum", "s.db.Vacuum") => some .maintenance
   | ("store.go", "doAutoOptimize", "s.db.Optimize") => some .maintenance
   | _ => none
 
-/-- the model transition(s) a kind stands for -/
-def StepKind.allows : StepKind → Db → Db → Prop
-  | .applyExecute, a, b => ∃ texts, b = (dbExecute a texts).db
-  | .applyRequest, a, b => ∃ texts, b = (dbRequest a texts).db
-  | .applyLoad, _, _ => True
-  | .applyEntry, a, b => NodeStep a b
-  | .restore, _, _ => True
-  | .boot, _, _ => True
-  | .maintenance, a, b => b = a
-
-theorem kind_is_a_step (k : StepKind) (a b : Db) (h : k.allows a b) : NodeStep a b := by
-  cases k <;> simp only [StepKind.allows] at h
-  · obtain ⟨t, ht⟩ := h; subst ht; exact .applyExecute _ t
-  · obtain ⟨t, ht⟩ := h; subst ht; exact .applyRequest _ t
-  · exact .replace a b
-  · exact h
-  · exact .replace a b
-  · exact .replace a b
-  · subst h; exact .maintenance _
-
-/-- EXACTLY these call sites exist (regenerated from the sources on every run): a new call of a
-database-mutating method anywhere in package store - also inside an already allowed function -
-or a removed one changes `storeSites` and breaks this proof; and each of them is one of the
-model's transitions. -/
+/-- EXACTLY these call sites exist (regenerated from the sources on every run), in this order and
+of these kinds: a new call of a database-mutating method or of a function that creates, opens or
+deletes database files anywhere in package store - also inside an already listed function - or a
+removed one changes `storeSites` and breaks this proof. -/
 theorem mutator_sites_are_model_steps :
     storeSites.map siteKind =
-      [some .applyExecute, some .applyRequest, some .applyLoad, some .applyLoad, some .applyEntry,
-       some .boot, some .maintenance, some .applyEntry, some .restore, some .maintenance] ∧
-    ∀ s ∈ storeSites, ∃ k, siteKind s = some k ∧ ∀ a b, k.allows a b → NodeStep a b := by
-  refine ⟨by decide, ?_⟩
-  intro s hs
-  have hall : storeSites.all (fun s => (siteKind s).isSome) = true := by decide
-  have := List.all_eq_true.mp hall s hs
-  cases hk : siteKind s with
-  | none => simp [hk] at this
-  | some k => exact ⟨k, rfl, fun a b => kind_is_a_step k a b⟩
+      [some .applyExecute, some .applyRequest, some .applyLoad, some .applyLoad,
+       some .open_, some .open_, some .open_, some .applyEntry, some .maintenance,
+       some .open_, some .boot, some .maintenance, some .applyEntry, some .restore, some .maintenance,
+       some .open_, some .open_] := by
+  decide
 
-/-- the read paths are not among them: serving a query-endpoint request, or a unified request
-without read-write texts below level strong, moves the database nowhere - and when a unified
-request does go through the log, what it does is the `applyRequest` transition -/
-theorem reads_take_no_step (lv : Level) (db : Db) (texts : List Text) :
-    (storeQuery lv db texts).db = db ∧
-    (nRW texts = 0 → lv ≠ .strong → (storeRequest lv db texts).db = db) ∧
-    NodeStep db (storeRequest lv db texts).db := by
-  refine ⟨rfl, fun h0 hl => (ro_classified_runs_on_ro_capable_conn lv db texts h0 hl).2, ?_⟩
-  unfold storeRequest
-  split
-  · exact .applyQuery db texts
-  · exact .applyRequest db texts
+/-- serving a request is one of two labels: a query-endpoint request, and a unified request without
+read-write texts below level strong, take the READ label (which keeps the database, see
+`read_labels_keep`); any other unified request takes `applyRequest` with exactly its texts -/
+theorem reads_take_the_read_label (lv : Level) (db : Db) (texts : List Text) :
+    (storeQuery lv db texts).db = stepL (.applyQuery texts) db ∧
+    ((nRW texts = 0 ∧ lv ≠ .strong) → (storeRequest lv db texts).db = stepL (.applyQuery texts) db) ∧
+    (¬ (nRW texts = 0 ∧ lv ≠ .strong) → (storeRequest lv db texts).db = stepL (.applyRequest texts) db) := by
+  refine ⟨rfl, fun h => ?_, fun h => ?_⟩
+  · have : (nRW texts == 0 && lv != .strong) = true := by simp [h.1, h.2]
+    simp [storeRequest, this, stepL]
+  · have : (nRW texts == 0 && lv != .strong) = false := by
+      cases hc : (nRW texts == 0 && lv != .strong)
+      · rfl
+      · exfalso; apply h; simpa using hc
+    simp [storeRequest, this, stepL]
 
 /-- http/ and cluster/ touch package db only for pure helpers - they reach the database through
 the Store -/
